@@ -3625,6 +3625,30 @@ class NetCDFRead(IORead):
         g["dataset_compliance"][field_ncvar]["dimensions"] = dimensions
         g["dataset_compliance"][field_ncvar].setdefault("non-compliance", {})
 
+        # Include any problem with a list, count or index variable
+        # that spans one of this variable's dimensions. Such problems
+        # are found before any field or domain is created, and so
+        # are recorded against no particular parent.
+        for ncvar, report in (
+            g["dataset_compliance"]
+            .get(None, {})
+            .get("non-compliance", {})
+            .items()
+        ):
+            if not {
+                "compress",
+                "sample_dimension",
+                "instance_dimension",
+            }.intersection(g["variable_attributes"].get(ncvar, ())):
+                continue
+
+            if ncvar == field_ncvar or set(
+                g["variable_dimensions"][ncvar]
+            ).intersection(dimensions):
+                g["dataset_compliance"][field_ncvar][
+                    "non-compliance"
+                ].setdefault(ncvar, []).extend(report)
+
         logger.info(
             "    Converting netCDF variable "
             f"{field_ncvar}({', '.join(dimensions)}) to a {construct_type}:"
@@ -8876,7 +8900,20 @@ class NetCDFRead(IORead):
                             being used for a collection of features.
 
         """
-        return sample_dimension in self.read_vars["internal_dimension_sizes"]
+        attribute = {parent_ncvar + ":sample_dimension": sample_dimension}
+
+        missing_dimension = ("Sample dimension", "is not in file")
+
+        if sample_dimension not in self.read_vars["internal_dimension_sizes"]:
+            self._add_message(
+                None,
+                parent_ncvar,
+                message=missing_dimension,
+                attribute=attribute,
+            )
+            return False
+
+        return True
 
     def _check_coordinate_interpolation(
         self,
